@@ -236,6 +236,7 @@ func checkC11(cx *Ctx, r *Report) {
 	cx.checkEndpointFuncs(r)
 	// no matchers on routes
 	cx.checkRouteMatchers(r)
+	cx.checkRoutesRegistered(r)
 	r.Check(len(cx.routes()) >= 8, "R-ROUTES", "#routes", "", fmt.Sprintf("%d routes", len(cx.routes())), fmt.Sprintf("only %d routes found", len(cx.routes())))
 
 	// --- one certificate -----------------------------------------------------------------------------------
@@ -342,6 +343,47 @@ func (cx *Ctx) checkEndpointFuncs(r *Report) {
 		}
 	}
 	r.Check(okAE, "R-SIB", "Absolute-via-absoluteEndpoint", w.FnPos(abs), "Absolute uses absoluteEndpoint(host, path)", "Endpoint.Absolute no longer uses absoluteEndpoint")
+}
+
+// checkRoutesRegistered: the table GetRoutes returns is what the router serves: CreateRouter hands Endpoint and
+// HandleFunc of every element of GetRoutes() to router.Handle, under no condition but the loop itself and the
+// presence of the identity provider (which NewProvider always sets).
+func (cx *Ctx) checkRoutesRegistered(r *Report) {
+	w, fx := cx.W, cx.Fx
+	cr := w.Func("provider.CreateRouter")
+	if cr == nil {
+		r.Fail("R-SIB", "routes-registered", "", "anchor provider.CreateRouter not found")
+		return
+	}
+	found := false
+	bad := ""
+	for _, c := range callsIn(cr) {
+		n := calleeName(c)
+		if n != "(*github.com/gorilla/mux.Router).HandleFunc" && n != "(*github.com/gorilla/mux.Router).Handle" {
+			continue
+		}
+		args := c.Common().Args
+		if len(args) < 3 {
+			continue
+		}
+		tp := fx.T(fx.path(args[1]))
+		if !strings.Contains(fx.path(args[1]), "GetRoutes") && !strings.HasSuffix(tp, "<provider.Route>.Endpoint") {
+			continue
+		}
+		found = true
+		for _, a := range fx.AtomsAt(c.(ssa.Instruction)) {
+			switch {
+			case a.Op == "LT" && !a.Neg:
+			case a.Op == "NIL" && a.Neg && strings.HasSuffix(a.TA, ".identityProvider"):
+			default:
+				bad = "the routes of the identity provider are registered only under " + a.String()
+			}
+		}
+	}
+	if !found {
+		bad = "CreateRouter does not register the routes GetRoutes returns: the advertised SSO, logout and attribute locations are not served"
+	}
+	r.Check(bad == "", "R-SIB", "routes-registered", w.FnPos(cr), "every element of GetRoutes() is handed to router.Handle", bad)
 }
 
 // checkRouteMatchers: routes are registered by path only; a Methods(...) matcher is accepted only when it is given
